@@ -9,6 +9,14 @@ from odfdo.utils.coordinates import (
 from vlib.hk import done
 
 UP = "ABCDEFGHIJKLMNOPQRSTUVWXYZ"
+import os
+
+D = int(os.environ.get("VERIF_DEPTH", "0"))  # thorough tier: deeper bounds (per process)
+NL = 3 + D                       # letters in a column name
+LO = (0, 26, 702, 18278, 475254)
+HI = (25, 701, 18277, 475253, 12356629)
+XC, YC = (701, 9999) if D == 0 else (18277, 999999)   # conv_cell / conv_partial / any_str
+XR, YR = (25, 99) if D == 0 else (701, 9999)          # conv_range
 
 
 def rt_digit_1(n: int) -> bool:
@@ -38,22 +46,31 @@ def rt_digit_3(n: int) -> bool:
     return done(len(s) == 3 and alpha_to_digit(s) == n)
 
 
+def rt_digit_4(n: int) -> bool:
+    """
+    pre: 18278 <= n <= 475253
+    post: _
+    """
+    s = digit_to_alpha(n)
+    return done(len(s) == 4 and alpha_to_digit(s) == n)
+
+
 def rt_alpha(s: str) -> bool:
     """
-    pre: 1 <= len(s) <= 3
+    pre: 1 <= len(s) <= NL
     pre: all(c in UP for c in s)
     post: _
     """
     # letters -> number -> letters is the identity, and the number is in the range of its length
     n = alpha_to_digit(s)
-    lo = (0, 26, 702)[len(s) - 1]
-    hi = (25, 701, 18277)[len(s) - 1]
+    lo = LO[len(s) - 1]
+    hi = HI[len(s) - 1]
     return done(lo <= n <= hi and digit_to_alpha(n) == s)
 
 
 def alpha_monotone(a: int, b: int) -> bool:
     """
-    pre: 0 <= a < b <= 18277
+    pre: 0 <= a < b <= HI[NL - 1]
     post: _
     """
     # injectivity of the rendering on the whole 3-letter range (bijection, with rt_alpha)
@@ -62,7 +79,7 @@ def alpha_monotone(a: int, b: int) -> bool:
 
 def conv_cell(x: int, y: int) -> bool:
     """
-    pre: 0 <= x <= 701 and 0 <= y <= 9999
+    pre: 0 <= x <= XC and 0 <= y <= YC
     post: _
     """
     # a written address parses back to the numbers it was written from
@@ -72,7 +89,7 @@ def conv_cell(x: int, y: int) -> bool:
 
 def conv_range(x: int, y: int, z: int, t: int) -> bool:
     """
-    pre: 0 <= x <= 25 and 0 <= y <= 99 and 0 <= z <= 25 and 0 <= t <= 99
+    pre: 0 <= x <= XR and 0 <= y <= YR and 0 <= z <= XR and 0 <= t <= YR
     post: _
     """
     s = digit_to_alpha(x) + str(y + 1) + ":" + digit_to_alpha(z) + str(t + 1)
@@ -81,7 +98,7 @@ def conv_range(x: int, y: int, z: int, t: int) -> bool:
 
 def conv_partial(x: int, z: int, y: int, t: int, cols: bool) -> bool:
     """
-    pre: 0 <= x <= 701 and 0 <= z <= 701 and 0 <= y <= 999 and 0 <= t <= 999
+    pre: 0 <= x <= XC and 0 <= z <= XC and 0 <= y <= YC and 0 <= t <= YC
     post: _
     """
     # partial ranges: 'A:C' addresses columns only, '1:4' rows only
@@ -111,7 +128,7 @@ def nonneg_index(v: int, n: int) -> bool:
 
 def any_str(x: int, y: int, n: int) -> bool:
     """
-    pre: 0 <= x <= 701 and 0 <= y <= 999 and 0 <= n
+    pre: 0 <= x <= XC and 0 <= y <= YC and 0 <= n
     post: _
     """
     # string forms accepted wherever a position is: column letters, 1-based row number
